@@ -32,6 +32,18 @@ CLAIMED = {
         note="Trusted: mc/core/refsem.py. Pools: Int -2..3, Real 6 values, all BV values of the width, corner "
              "strings, small canonical arrays. Nothing is claimed for widths > 4 or depth > 2.",
         design="§3 C02"),
+    "C03": dict(
+        category="exploration",
+        technique="exhaustive matrix of public constructors x argument sorts x arities against an independent "
+                  "typing table, plus bottom-up re-typing of every transformation output on enumerated pools",
+        text="Every public constructor is applied to every tuple of a pool with one or two inhabitants per sort "
+             "(arities n-1..n+1; in- and out-of-range integer parameters for indexed operators): ill-typed "
+             "applications must raise, returned formulas must carry the sort the table predicts, according to "
+             "get_type() and to the harness' own bottom-up derivation. Every transformation and both parsers "
+             "are run on enumerated pools and their outputs re-typed.",
+        note="Trusted: the typing table in mc/props/c03.py and reftype in mc/core/refsem.py. Refusing a "
+             "well-typed application is outside the statement and only counted (listed in the evidence notes).",
+        design="§3 C03"),
 }
 
 PENDING = {}
@@ -39,7 +51,7 @@ for i in range(1, 21):
     PENDING["C%02d" % i] = "check designed in DESIGN.md §3 but not built yet in this revision; no claim is made"
 
 ENGINES = [
-    dict(name="sweep", path="mc/core/sweep.py", serves_properties=["C01", "C02"],
+    dict(name="sweep", path="mc/core/sweep.py", serves_properties=["C01", "C02", "C03"],
          kind_free_text="sharded bounded-exhaustive term enumeration (termgen) + reference semantics (refsem)"),
 ]
 
